@@ -1298,11 +1298,13 @@ fn gen_all(tier: &str, seed: u64, w: &mut dyn Write) {
         let mut sweeps: Vec<(&str, usize, usize)> = vec![
             ("none", 0b0001, 157), // one key, all lengths 0..3 over the five values: 157^2 pairs
             ("ddnet", 0b0001, 157),
-            ("none", 0b0111, 7),  // three keys (incl. type >= 0x8000 and a registry item), lengths 0..1
-            ("ddnet", 0b1101, 7), // three keys inside the reference's domain
+            ("none", 0b0111, 4),  // three keys (incl. type >= 0x8000 and a registry item), absent / [] / [0] / [1]
+            ("ddnet", 0b1101, 4), // three keys inside the reference's domain
             ("none", 0b1111, 3),
         ];
         if thorough {
+            sweeps.push(("none", 0b0111, 7));
+            sweeps.push(("ddnet", 0b1101, 7));
             sweeps.push(("none", 0b0011, 32));
             sweeps.push(("ddnet", 0b1001, 32));
             sweeps.push(("none", 0b1111, 7));
